@@ -25,9 +25,11 @@ from typing import Any, Callable, Iterable
 
 VERIF = os.path.dirname(os.path.dirname(os.path.abspath(__file__)))
 COQ = os.path.join(VERIF, "coq")
-WORK = os.path.join(VERIF, "work")
-REPLAY = os.path.join(VERIF, "replay")
-EVID = os.path.join(VERIF, "evidence")
+# VERIF_OUT redirects scratch / replay / evidence output (used by the mutation sweep, which runs several checks at once)
+_OUT = os.environ.get("VERIF_OUT", VERIF)
+WORK = os.path.join(_OUT, "work")
+REPLAY = os.path.join(_OUT, "replay")
+EVID = os.path.join(_OUT, "evidence")
 JOBS = int(os.environ.get("VERIF_JOBS", "16"))
 
 
@@ -193,6 +195,8 @@ def scan_forbidden() -> list[str]:
 
 def build_coq(clean: bool = False, timeout: int = 3000) -> tuple[bool, str]:
     """Full .vo build of the development (incremental unless clean)."""
+    if os.environ.get("VERIF_NO_BUILD") == "1":     # mutation sweep: the development was built once, sources untouched
+        return True, "build skipped (VERIF_NO_BUILD)"
     try:
         if clean and os.path.exists(os.path.join(COQ, "Makefile")):
             subprocess.run(["make", "clean"], cwd=COQ, capture_output=True, timeout=300)
@@ -216,7 +220,12 @@ def theorem_info(prop: str) -> dict:
     txt = open(path).read()
     info["theorems"] = re.findall(r"^\s*(?:Theorem|Corollary)\s+(\w+)", txt, flags=re.M)
     try:
-        p = subprocess.run(["coqc", "-Q", COQ, "PM", path], capture_output=True, text=True,
+        cmd = ["coqc", "-Q", COQ, "PM", path]
+        if os.environ.get("VERIF_NO_BUILD") == "1":     # several checks at once: do not write into the source tree
+            od = os.path.join(WORK, f"thm-{os.getpid()}")
+            os.makedirs(od, exist_ok=True)
+            cmd = ["coqc", "-Q", COQ, "PM", "-o", os.path.join(od, f"{prop}.vo"), path]
+        p = subprocess.run(cmd, capture_output=True, text=True,
                            timeout=900, cwd=os.path.join(COQ, "Properties"))
     except subprocess.TimeoutExpired:
         info["error"] = "coqc timeout"
